@@ -8,4 +8,4 @@ git apply "$d/patch.diff" || { echo "patch does not apply"; exit 2; }
 trap 'git -C /repo checkout -- . ; git -C /repo status --short' EXIT
 echo "== repo tests"; /venv/bin/python -m pytest -q -p no:cacheprovider tests 2>&1 | tail -1
 if [ -f "$d/demo.py" ]; then echo "== demo (expected to fail)"; (cd /repo && PYTHONPATH=/repo timeout 300 /venv/bin/python "$d/demo.py" >/dev/null 2>&1; echo "demo rc=$?"); fi
-for c in "$@"; do echo "== check $c"; (cd /verif && timeout 1500 ./check $c --tier quick 2>&1 | grep -v KNOWN-FINDING | cut -c1-220 | tail -4; ); done
+for c in "$@"; do echo "== check $c"; (cd /verif && timeout 1500 ./check $c --tier quick > /tmp/try_seed_$c.out 2>&1; rc=$?; grep VIOLATION /tmp/try_seed_$c.out | cut -c1-220 | head -4; grep "MACHINERY" /tmp/try_seed_$c.out | cut -c1-300 | head -2; echo "check rc=$rc violations=$(grep -c VIOLATION /tmp/try_seed_$c.out)"); done
